@@ -88,6 +88,12 @@ def gen(seed, tier):
             for i in range(len(lst)):
                 if r.random() < 0.4:
                     lst[i] = ['wx', r.randrange(3), r.random() < 0.4]
+    if kind == 'file' and not multi and r.random() < 0.3:
+        # the database is closed and reopened while the wall clock is
+        # behind its newest transaction (stepped back, or written under a
+        # fast clock): later commits still come after everything there
+        the_ops.insert(r.randrange(len(the_ops) + 1),
+                       ['reopen_back', r.choice((5, 600, 86400))])
     return {'kind': kind, 'ops': the_ops, 'multi': multi,
             # demo kinds: this many leading operations are committed to
             # the base storage alone, before it is wrapped (the base then
@@ -317,6 +323,19 @@ def run(case):
         for i, op in enumerate(case['ops']):
             if base_n and i == min(base_n, len(case['ops'])):
                 st, db, A = wrap_base()
+            if op[0] == 'reopen_back':
+                if case['kind'] == 'file' and not case.get('multi'):
+                    A.abort()
+                    A.close()
+                    db.close()
+                    sim.clock.advance(-op[1])
+                    db = dbh.make_db(sim, 'file',
+                                     st_opts={'pack_gc': False}, **db_opts)
+                    st = db.storage
+                    A = dbh.Client(db, 'A')
+                    A.open()
+                    stats['reopened_with_clock_behind'] = 1
+                continue
             live(op)
         if base_n and hasattr(st, 'changes') is False:
             st, db, A = wrap_base()
@@ -436,11 +455,18 @@ def run(case):
                         older = [t for t in tids if t < bound]
                         if len(older) >= 2:
                             pt = TimeStamp(older[-2]).timeTime()
+                            stop = TimeStamp(
+                                *__import__('time').gmtime(pt)[:5]
+                                + (pt % 60,)).raw()
+                            # (ids one tick apart -- after a reopen with
+                            # the clock behind -- are closer than a float
+                            # time resolves: the pack time must still lie
+                            # before the chosen point)
+                            if stop >= bound:
+                                older = []
+                        if len(older) >= 2:
                             try:
                                 db.pack(pt)
-                                stop = TimeStamp(
-                                    *__import__('time').gmtime(pt)[:5]
-                                    + (pt % 60,)).raw()
                                 last_pack_stop = max(last_pack_stop, stop)
                                 stats['packs'] = stats.get('packs', 0) + 1
                             except Exception:   # noqa: B902
